@@ -18,6 +18,8 @@ TRUSTED_EXTRA = [
     "standard-library axioms of the classical real numbers reported by Print Assumptions for the C13 theorems: ClassicalDedekindReals.sig_not_dec, "
     "ClassicalDedekindReals.sig_forall_dec, FunctionalExtensionality.functional_extensionality_dep, Classical_Prop.classic (via Reals / Coquelicot)",
     "coq-interval 4 (Interval.Tactic): the per-case goals |obs - den spec| <= tol are closed by its reflexive interval arithmetic (checked by the kernel through vm_compute)",
+    "harness/dist_translate.py: translator (Python ast, fail-closed, ~90 lines) from src/genjax/distributions.py to the Gallina table of wrappers; "
+    "Model/DistTable.v:tfp_sig_table (positional parameter order of the TFP constructors) is a trusted statement about the TFP API",
     "scipy.stats reference CDFs / PMFs for the goodness-of-fit part of the correspondence (sampler law); statistical, rejection threshold p < 1e-6 with fixed keys",
 ]
 ASSUMPTIONS = ["model = implementation is checked on the generated cases only",
@@ -127,6 +129,29 @@ def run(ctx):
                     bad.append((i, False, True, True))
                 else:
                     coq_errs.append(f"case {i}: {v}: {json.dumps(cases[i])[:300]}")
+    # --- source-level tie: the wrapper table regenerated from distributions.py
+    import dist_translate
+    table_verdict = None
+    try:
+        rows = dist_translate.translate(os.path.join(common.REPO, "src", "genjax", "distributions.py"))
+        tf = os.path.join(ctx.scratch, "code_table.v")
+        open(tf, "w").write("From Coq Require Import List String.\nFrom GV Require Import Model.Dists Model.DistTable.\nImport ListNotations.\nOpen Scope string_scope.\n"
+                            "Definition code_table : list code_row := " + dist_translate.gallina(rows) + ".\n"
+                            "Definition verdict := Eval vm_compute in judge_code_table code_table.\nPrint verdict.\n")
+        pr = subprocess.run(["timeout", "300", "coqc", "-Q", common.COQ, "GV", tf], capture_output=True, text=True)
+        m = re.search(r"verdict\s*=\s*\((true|false),\s*(true|false)\)", pr.stdout + pr.stderr)
+        if pr.returncode != 0 or not m:
+            coq_errs.append("code table did not evaluate: " + (pr.stdout + pr.stderr)[-800:])
+        else:
+            table_verdict = (m.group(1) == "true", m.group(2) == "true")
+            if not table_verdict[1]:
+                coq_errs.append("Model/DistTable.v:doc_consistent fails on the table regenerated from distributions.py "
+                                "(a wrapper no longer denotes its documented call signatures): " + dist_translate.gallina(rows)[:1500])
+            elif not table_verdict[0]:
+                coq_errs.append("the table regenerated from distributions.py differs from Model/DistTable.v:expected_code_table "
+                                "(theorem C13_wrappers_denote_documented_signatures no longer applies): " + dist_translate.gallina(rows)[:1500])
+    except dist_translate.Unrecognised as e:
+        coq_errs.append(f"harness/dist_translate.py does not recognise the shape of a wrapper in distributions.py: {e}")
     # --- shape / law cases
     sh_idx = [i for i, c in enumerate(cases) if c["kind"] != "lp"]
     vf = os.path.join(ctx.scratch, "cases_sh.v")
@@ -148,7 +173,8 @@ def run(ctx):
     pv = sorted(c["pvalue"] for c in cases if c["kind"] == "law" and "pvalue" in c)
     return {"cases": cases, "bad": bad, "worker_errs": worker_errs, "coq_errs": coq_errs,
             "coverage": {"evaluations": len(cases), "distinct_nontrivial": nt,
-                         "rule": "every documented call signature (positional and keyword) of the 24 exported distributions, plus two user tfp_distribution wrappers and one "
+                         "rule": "source tie: harness/dist_translate.py regenerates from distributions.py the table (name, TFP constructor, parameter passing, fixed keywords) and Coq compares it "
+                                 "with Model/DistTable.v:expected_code_table and re-checks doc_consistent on it.  Behaviour: every documented call signature (positional and keyword) of the 24 exported distributions, plus two user tfp_distribution wrappers and one "
                                  "user distribution(wrap_sampler, wrap_logpdf), visited in turn.  lp: logpdf at random float32 parameters and in-support values (Gamma-function "
                                  "families on integer / half-integer shapes, zipf at powers 2 and 4), eager == jit == assess weight, and |logpdf - closed form| <= 1e-3 + 1e-4|logpdf| "
                                  "proved by the Interval tactic on the model's reflected real expression (BAD = the strict converse proved).  shape: result shape and dtype of seeded draws with "
@@ -158,6 +184,8 @@ def run(ctx):
                                  "marginals for dirichlet / multinomial); a case fails only if p < 1e-6 or draws repeat across lanes.  non-trivial = distinct lp input, non-scalar shape "
                                  "configuration, or law case",
                          "histogram": {"kinds": Counter(c["kind"] for c in cases),
+                                       "wrapper_table": {"equals_expected": None if table_verdict is None else table_verdict[0],
+                                                         "consistent_with_documented_signatures": None if table_verdict is None else table_verdict[1]},
                                        "signatures_covered": len({(k[0], k[1]) for k in sig_seen}),
                                        "lp_verdicts": verdicts,
                                        "lp_by_name": Counter(c["name"] for c in cases if c["kind"] == "lp"),
